@@ -831,7 +831,7 @@ pub(crate) fn any_devices(c: &mut ZXController<VHost>) -> Cfg {
 }
 
 // @harness
-// @prop C07
+// @prop C07 C09
 // @tier quick
 // @timeout 900
 // @fn ZXController::write_io; ZXController::set_border_color; ZXController::write_7ffd; ZXController::write_ay_port; ZXController::select_ay_reg; IoExtender dispatch
